@@ -10,6 +10,7 @@ import FwdVerif.Lemmas.C14Sort
 import FwdVerif.Lemmas.C14Proxy
 import FwdVerif.Lemmas.C14Pool
 import FwdVerif.Lemmas.C14Deco
+import FwdVerif.Lemmas.C14Entry
 
 namespace FwdVerif
 namespace C14
@@ -152,13 +153,116 @@ theorem c14_resolvers (env : Env) (x : Bytes) :
 
 /-! ## 2. Entry points, result checks, evaluation -/
 
-/-- exactly one of `FindProxyForURL` / `FindProxyForURLEx` must be a function. -/
+/-- exactly one of `FindProxyForURL` / `FindProxyForURLEx` must be a function, where what counts
+    under a name is what the script specifies there (`Script.global`): the value its declaration
+    gives the name when that declaration defines a global binding — of whatever form. -/
 theorem c14_entry_points (s : Script) :
-    (∀ t, load s = .ok t ↔ ((s.fn.tree? = some t ∧ s.fnEx.tree? = none) ∨ (s.fn.tree? = none ∧ s.fnEx.tree? = some t))) ∧
-    (load s = .error .missing ↔ (s.fn.tree? = none ∧ s.fnEx.tree? = none)) ∧
-    (load s = .error .ambiguous ↔ (s.fn.tree? ≠ none ∧ s.fnEx.tree? ≠ none)) := by
-  unfold load
-  cases h1 : s.fnEx.tree? <;> cases h2 : s.fn.tree? <;> simp
+    (∀ t, load s = .ok t ↔ (((s.global .find).tree? = some t ∧ (s.global .findEx).tree? = none) ∨
+      ((s.global .find).tree? = none ∧ (s.global .findEx).tree? = some t))) ∧
+    (load s = .error .missing ↔ ((s.global .find).tree? = none ∧ (s.global .findEx).tree? = none)) ∧
+    (load s = .error .ambiguous ↔ ((s.global .find).tree? ≠ none ∧ (s.global .findEx).tree? ≠ none)) := by
+  rw [load_eq]
+  unfold loadWith
+  cases h1 : (s.global .findEx).tree? <;> cases h2 : (s.global .find).tree? <;> simp
+
+/-- the lookup of `entryPoint()` (`vm.Get`: global lexical bindings first, then the properties of
+    the global object) returns, for every declaration form, exactly what the script specifies
+    under the name: `let` / `const` bindings are seen like `function` / `var` / assigned ones, and a
+    name that is local to a block, a function or an eval is not seen. -/
+theorem c14_entry_lookup (s : Script) (n : EName) : vmGet s.scope n = s.global n := vmGet_scope s n
+
+/-- which forms define a global binding, stated outright: the thirteen that make the name a
+    property of the global object and the five that make it a global lexical binding do, the five
+    that keep it local do not; the list of forms is complete. -/
+theorem c14_entry_forms_table :
+    (∀ f : DeclForm, f ∈ DeclForm.all) ∧
+    DeclForm.all.filter (fun f => f.binding == .property) =
+      [.funDecl, .varFun, .varNamedFun, .varArrow, .assign, .thisAssign, .defineProp, .blockVar, .blockAssign,
+       .iifeAssign, .iifeThis, .iifeGlobalArg, .evalVar] ∧
+    DeclForm.all.filter (fun f => f.binding == .lexical) = [.constFun, .letFun, .constArrow, .letArrow, .letLater] ∧
+    DeclForm.all.filter (fun f => !definesGlobal f) = [.blockLet, .blockConst, .iifeLocalFun, .iifeLocalVar, .evalLet] := by
+  refine ⟨fun f => by cases f <;> decide, by decide, by decide, by decide⟩
+
+/-- the entry-point rules over every declaration form: a function declared in a global-defining
+    form — alone, under either name — is the entry point; two of them, in any combination of such
+    forms, are ambiguous; forms never matter beyond that (`load` of the script = `load` of the same
+    script spelt with function declarations). -/
+theorem c14_entry_every_form (f f' : DeclForm) (hf : definesGlobal f = true) (t : Tree) :
+    load ⟨.fn t, .absent, f, f'⟩ = .ok t ∧ load ⟨.absent, .fn t, f', f⟩ = .ok t ∧
+    load ⟨.fn t, .notFunction, f, f'⟩ = .ok t ∧ load ⟨.notFunction, .fn t, f', f⟩ = .ok t ∧
+    (∀ t2, definesGlobal f' = true → load ⟨.fn t, .fn t2, f, f'⟩ = .error .ambiguous) ∧
+    (∀ e2, definesGlobal f' = true → load ⟨.fn t, e2, f, f'⟩ = load ⟨.fn t, e2, .funDecl, .funDecl⟩) := by
+  refine ⟨?_, ?_, ?_, ?_, ?_, ?_⟩
+  · rw [load_forms, load_plain]; simp [hf, Entry.tree?]
+  · rw [load_forms, load_plain]; simp [hf, Entry.tree?]
+  · rw [load_forms, load_plain]; by_cases h' : definesGlobal f' = true <;> simp [hf, h', Entry.tree?]
+  · rw [load_forms, load_plain]; by_cases h' : definesGlobal f' = true <;> simp [hf, h', Entry.tree?]
+  · intro t2 h'
+    rw [load_forms, load_plain]; simp [hf, h', Entry.tree?]
+  · intro e2 h'
+    rw [load_forms]; simp [hf, h']
+
+/-- a name that its declaration keeps local (block-scoped `let` / `const`, a function or `var`
+    inside a function body, a `let` inside eval code) is no entry point: the script loads as if the
+    declaration were not there, and alone it is "missing". -/
+theorem c14_entry_local_form (f f' : DeclForm) (hf : definesGlobal f = false) (e e2 : Entry) :
+    load ⟨e, e2, f, f'⟩ = load ⟨.absent, e2, f, f'⟩ ∧ load ⟨e2, e, f', f⟩ = load ⟨e2, .absent, f', f⟩ ∧
+    load ⟨e, .absent, f, f'⟩ = .error .missing := by
+  refine ⟨?_, ?_, ?_⟩
+  · rw [load_forms, load_forms .absent]; simp [hf]
+  · rw [load_forms, load_forms e2 .absent]; simp [hf]
+  · rw [load_forms, load_plain]; simp [hf, Entry.tree?]
+
+/-- a value that is not a function under a name does not count, whatever its form. -/
+theorem c14_entry_not_function (f f' : DeclForm) (e2 : Entry) :
+    load ⟨.notFunction, e2, f, f'⟩ = load ⟨.absent, e2, f, f'⟩ := by
+  rw [load_forms, load_forms .absent, load_plain, load_plain]
+  by_cases hf : definesGlobal f = true <;> simp [hf, Entry.tree?]
+
+example : load ⟨.fn (.ret (.lit (.str [80]))), .absent, .constArrow, .funDecl⟩ = .ok (.ret (.lit (.str [80]))) ∧
+    load ⟨.absent, .fn (.ret (.lit (.str [80]))), .funDecl, .letLater⟩ = .ok (.ret (.lit (.str [80]))) ∧
+    load ⟨.fn (.ret (.lit (.str [80]))), .fn (.ret (.lit (.num 1))), .funDecl, .constFun⟩ = .error .ambiguous ∧
+    load ⟨.fn (.ret (.lit (.str [80]))), .fn (.ret (.lit (.num 1))), .blockLet, .iifeThis⟩ = .ok (.ret (.lit (.num 1))) ∧
+    load ⟨.fn (.ret (.lit (.str [80]))), .absent, .iifeLocalFun, .funDecl⟩ = .error .missing := by
+  refine ⟨rfl, rfl, rfl, rfl, rfl⟩
+
+/-- Why the lookup has to be the scope lookup: with the property-only lookup
+    (`vm.GlobalObject().Get`) an entry point declared with `let` / `const` is "missing" although the
+    script specifies it, and a script with two entry points, one of them lexical, is accepted and
+    evaluated with the other one instead of being refused as ambiguous. -/
+theorem c14_entry_property_lookup_witness (f f' f2 : DeclForm) (hf : f.binding = .lexical) (h2 : f2.binding = .property)
+    (t t2 : Tree) :
+    (load ⟨.fn t, .absent, f, f'⟩ = .ok t ∧ loadWith objGet ⟨.fn t, .absent, f, f'⟩ = .error .missing) ∧
+    (load ⟨.fn t, .fn t2, f, f2⟩ = .error .ambiguous ∧ loadWith objGet ⟨.fn t, .fn t2, f, f2⟩ = .ok t2) ∧
+    (load ⟨.fn t2, .fn t, f2, f⟩ = .error .ambiguous ∧ loadWith objGet ⟨.fn t2, .fn t, f2, f⟩ = .ok t2) := by
+  have d1 : definesGlobal f = true := by simp [definesGlobal, hf]
+  have d2 : definesGlobal f2 = true := by simp [definesGlobal, h2]
+  refine ⟨⟨?_, ?_⟩, ⟨?_, ?_⟩, ⟨?_, ?_⟩⟩
+  · rw [load_forms, load_plain]; simp [d1, Entry.tree?]
+  · by_cases hp : f'.binding = .property <;> simp [loadWith, objGet_scope, Script.form, Script.entry, hf, hp, Entry.tree?]
+  · rw [load_forms, load_plain]; simp [d1, d2, Entry.tree?]
+  · simp [loadWith, objGet_scope, Script.form, Script.entry, hf, h2, Entry.tree?]
+  · rw [load_forms, load_plain]; simp [d1, d2, Entry.tree?]
+  · simp [loadWith, objGet_scope, Script.form, Script.entry, hf, h2, Entry.tree?]
+
+example : DeclForm.constArrow.binding = .lexical ∧ DeclForm.thisAssign.binding = .property := by decide
+
+/-- arguments a script builds at run time from the request (`"10." + host.split(".")[1] + ".0.0/16"`)
+    mean their value: evaluating a script on a request is evaluating its residual — the same tree
+    with every argument replaced by the literal it denotes for that request — on any request. -/
+theorem c14_dyn_args_residual (hc : Helper → List Val → Res) (t : Tree) (r r' : Req) :
+    findProxyWith hc (t.residual r.url r.host) r' = findProxyWith hc t r := by
+  unfold findProxyWith
+  rw [evalTree_residual]
+
+example :
+    let t : Tree := .ite (.truthy ⟨.isInNetEx, [.host, .cat [.label 0, .lit [46], .label 1, .lit [46, 48, 46, 48, 47, 49, 54]]]⟩)
+      (.ret (.lit (.str [80]))) (.ret (.lit (.str [81])))
+    findProxy ⟨[], [], []⟩ t ⟨[], [], ([49, 48, 46, 55, 46, 50, 46, 51] : Bytes) /- "10.7.2.3" -/⟩ = .ok [80] ∧
+    Arg.val [] ([49, 48, 46, 55, 46, 50, 46, 51] : Bytes) (.cat [.label 0, .lit [46], .label 1, .lit [46, 48, 46, 48, 47, 49, 54]]) =
+      .str ([49, 48, 46, 55, 46, 48, 46, 48, 47, 49, 54] : Bytes) /- "10.7.0.0/16" -/ ∧
+    Arg.val [] [120] (.cat [.label 3]) = .str sUndefined := by
+  decide
 
 /-- the answer is `ok s` exactly when the entry point returned the string `s` and `s` is ASCII; any
     other value is a type error, a non-ASCII string its own error, an exception an error. -/
@@ -624,6 +728,72 @@ example :
        .acquire 2 (some 0), .beginEval 2, .finish 2]
     (st.base.phase 0).answer? = some (some (.ok [49])) ∧ (st.base.phase 1).answer? = some (some (.ok [49])) ∧
       (st.base.phase 2).answer? = some (some (.ok [50])) ∧ st.log.length = 3 := by
+  decide
+
+/-! ## 6. Helpers keep no state: the premise of the pool theorems, made explicit -/
+
+/-- Evaluating helper `h` on arguments `a` gives the same value whatever was evaluated before, by
+    anyone: against every table `m` of earlier helper calls whose entries are sound — in particular
+    (`c14_helpers_history`) every table that any sequence of calls by any callers leaves behind —
+    the call yields `callHelper env h a`, the value it has with nothing evaluated before, and
+    leaves a sound table. -/
+theorem c14_helpers_stateless (env : Env) (m : HMemo) (hm : m.sound env) (h : Helper) (a : List Val) :
+    (callHelperMemo env m h a).1 = callHelper env h a ∧
+    (callHelperMemo env m h a).1 = (callHelperMemo env [] h a).1 ∧
+    (callHelperMemo env m h a).2.sound env :=
+  ⟨callHelperMemo_fst env m hm h a,
+   (callHelperMemo_fst env m hm h a).trans (callHelperMemo_fst env [] (memo_nil_sound env) h a).symm,
+   callHelperMemo_sound env m hm h a⟩
+
+/-- whatever calls `ks` were made before (any helpers, any arguments, any callers, any order), the
+    table they leave is sound, so the next call has the value it has on a fresh process. -/
+theorem c14_helpers_history (env : Env) (ks : List HKey) (h : Helper) (a : List Val) :
+    (memoAfter env ks).sound env ∧ (callHelperMemo env (memoAfter env ks) h a).1 = callHelper env h a :=
+  ⟨memoAfter_sound env ks, callHelperMemo_fst env _ (memoAfter_sound env ks) h a⟩
+
+/-- non-vacuity: after `isInNetEx("10.1.2.3", "10.1.0.0/16")` was evaluated (and cached) the same call and
+    a call with another prefix give what they give alone. -/
+example :
+    let k1 : HKey := (.isInNetEx, [.str [49, 48, 46, 49, 46, 50, 46, 51], .str [49, 48, 46, 49, 46, 48, 46, 48, 47, 49, 54]])
+    let m := memoAfter ⟨[], [], []⟩ [k1]
+    m.length = 1 ∧ (callHelperMemo ⟨[], [], []⟩ m k1.1 k1.2).1 = .ok (.bool true) ∧
+      (callHelperMemo ⟨[], [], []⟩ m .isInNetEx [.str [49, 48, 46, 49, 46, 50, 46, 51], .str [49, 48, 46, 50, 46, 48, 46, 48, 47, 49, 54]]) =
+        (.ok (.bool false), ((.isInNetEx, [.str [49, 48, 46, 49, 46, 50, 46, 51], .str [49, 48, 46, 50, 46, 48, 46, 48, 47, 49, 54]]), .ok (.bool false)) :: m) := by
+  decide
+
+/-- hence a script evaluates to the same result under any helper semantics each of whose calls sees
+    *some* sound table (a different one at every call: other callers fill it in between). -/
+theorem c14_eval_stateless (env : Env) (hc' : Helper → List Val → Res)
+    (hh : ∀ h a, ∃ m : HMemo, m.sound env ∧ hc' h a = (callHelperMemo env m h a).1) (t : Tree) (r : Req) :
+    findProxyWith hc' t r = findProxy env t r := by
+  unfold findProxy findProxyWith
+  rw [evalTree_hc_ext (callHelper env) hc' (fun h a => by
+    obtain ⟨m, hm, e⟩ := hh h a
+    rw [e, callHelperMemo_fst env m hm])]
+
+/-- `c14_pool_stateless` for helper-using scripts: whatever state `σ` evaluations leave behind on a VM
+    (or anywhere: `upd` is arbitrary) and whichever sound table each helper call sees, every caller
+    of every concurrent history over the pool gets `findProxy` of its own request — the answer of
+    that request asked alone on a fresh resolver. -/
+theorem c14_pool_helpers {σ : Type} (env : Env) (hc' : Helper → List Val → Res)
+    (hh : ∀ h a, ∃ m : HMemo, m.sound env ∧ hc' h a = (callHelperMemo env m h a).1)
+    (t : Tree) (upd : σ → Req → σ) (s0 : σ) (req : Nat → Req) (ops : List POp) (c : Nat) (a : Option Answer)
+    (h : ((srun (fun st r => (findProxyWith hc' t r, upd st r)) s0 req ops).base.phase c).answer? = some a) :
+    a = some (findProxy env t (req c)) := by
+  have := c14_pool_stateless (fun st r => (findProxyWith hc' t r, upd st r)) s0 req ops (fun _ _ => rfl) c a h
+  rw [this, c14_eval_stateless env hc' hh]
+
+/-- non-vacuity of the premise: the helpers read through a sound table satisfy it. -/
+example (env : Env) (m : HMemo) (hm : m.sound env) :
+    ∀ h a, ∃ m' : HMemo, m'.sound env ∧ (fun h a => (callHelperMemo env m h a).1) h a = (callHelperMemo env m' h a).1 :=
+  fun _ _ => ⟨m, hm, rfl⟩
+
+/-- the premise is needed: one unsound entry (what a torn write of an unsynchronised cache could leave)
+    changes an answer. -/
+theorem c14_helpers_unsound_witness :
+    let k : HKey := (.isInNetEx, [.str [49, 48, 46, 49, 46, 50, 46, 51], .str [49, 48, 46, 49, 46, 48, 46, 48, 47, 49, 54]])
+    let bad : HMemo := [(k, .ok (.bool false))]
+    (callHelperMemo ⟨[], [], []⟩ bad k.1 k.2).1 = .ok (.bool false) ∧ callHelper ⟨[], [], []⟩ k.1 k.2 = .ok (.bool true) := by
   decide
 
 end C14
